@@ -322,6 +322,17 @@ static void run_region(void (*fn)(void*), void* data, int req, bool exact, const
         G.st.shortfalls++;
         rs.shortfalls++;
     }
+    if (G.running && G.cfg.clock_jump_p > 0 && G.sched.chance(G.cfg.clock_jump_p)) {
+        // clock fault: jump forwards/backwards by up to an hour, or toggle a freeze
+        uint64_t k = G.sched.below(3);
+        if (k == 0)
+            clock_fault_jump((int64_t)G.sched.below(3600ull * 1000000000ull));
+        else if (k == 1)
+            clock_fault_jump(-(int64_t)G.sched.below(3600ull * 1000000000ull));
+        else
+            clock_fault_freeze(!G.clock_frozen);
+        G.st.clock_faults++;
+    }
     hist_team(n);
     if (n > rs.max_team)
         rs.max_team = n;
